@@ -390,3 +390,10 @@ Definition sh_lenvar (p : program) : bool :=
   existsb (fun s => has_lenvar_defs (s_attrs s)) (p_structs p)
   || existsb (fun t => has_lenvar_defs (t_ins t) || has_lenvar_defs (flat_map stmt_decls_raw (t_body t)))
              (p_tasks p).
+
+(* the guard of C11_wf_accepted_partial: no crash shape in guards and path parameters (D11a,
+   D11c), no string attribute in a position where only numbers and booleans are accepted and
+   no parenthesised string operand (D20) *)
+Definition c11_guard (p : program) : bool :=
+  prog_all (fun E T e => expr_safe E T e) (fun E T x => param_access_safe E T x) p
+  && negb (sh_string_eq p).
